@@ -111,7 +111,8 @@ def main():
     eng["serves_properties"] = sorted(CLAIMS)
     m = {"version": 1, "setup_cmd": "sh tools/setup.sh",
          "hooks": {"guard": "hbs_lms_verif",
-                   "enable": "harness/.cargo/config.toml passes `--cfg hbs_lms_verif` to rustc for the path dependency on /repo",
+                   "enable": "harness/.cargo/config.toml passes `--cfg hbs_lms_verif` to rustc for the path dependency on /repo; the call-tracing blocks "
+                             "additionally need `--cfg hbs_lms_verif_trace` (tools/repotests.py sets both when it records the repository's test suite)",
                    "baseline_off_cmd": "cd /repo && cargo test --workspace --no-fail-fast --offline",
                    "source_commits": commits, "add_only": True},
          "engines": [eng], "checks": checks, "not_applicable": na,
